@@ -226,21 +226,32 @@ def run(ctx):
         ctx.add('N5.wire-id-is-allocated', O.path, loc(s), ok, 'the ID placed in the request tuple is not the value returned by the allocator')
     ctx.floor('N5', 'request sends', len(sends), 1)
 
-    # ---- N6 no release of an ID that is still routed
+    # ---- N6 no release of an ID that is still routed.  Decided on the enumerated paths of the select! arms (a branch that cannot
+    # be taken - `if let Some(extra) = None` left behind by an expanded helper - is on no path): every release of an ID on a path
+    # comes with the removal, on the same path, of a routing entry under the same ID, or is the release of the Abandon request's own,
+    # never-answered ID.  Every release site of the loop must lie on some enumerated path (else the rule has not looked at it).
     L = C.loop
     releases = anchors.method_calls(L.root, 'HashSet::<T, S, A>::remove', C.is_idset_place)
-    unroutes = [(n, c, w) for w in ('result', 'search')
-                for n, c in anchors.method_calls(L.root, 'HashMap::<K, V, S, A>::remove', lambda r, w=w: C.is_map_place(r, w))]
-    req = C.arms['request']
+    REQ = ('variant', drv.ARM, 'Some', 0)
+    OWN, OP = ('field', REQ, '0'), ('field', REQ, '1')
+    seen = set()
+    interps = {}
+    for role, a in C.arms.items():
+        if not isinstance(a, dict):
+            continue
+        pouts, interps[role] = drv.arm_paths(C, role)
+        for o in pouts:
+            if o.kind == 'div':
+                continue
+            for i, name, args, node in drv.map_calls(C, o, 'idset', ('remove',)):
+                k = args[1]
+                seen.add(id(node))
+                unrouted = any(a2[1] == k and drv.net_registration(C, o, w, k) != 'kept'
+                               for w in ('result', 'search') for _i, _n, a2, _nd in drv.map_calls(C, o, w, ('remove', 'remove_entry')))
+                own_abandon = role == 'request' and k == OWN and absx.pc_variant(o.st.pc, lambda v: v == OP, 'LdapOp::Abandon') is True
+                ctx.add('N6.release-implies-unrouted', '%s|%s|%s' % (L.path, role, absx.fmt(k)[-40:]), loc(node), unrouted or own_abandon,
+                        'an ID is released while its routing entry is kept: the allocator can hand it to a second operation')
     for r, rc in releases:
-        key = hirq.strip_casts(L.origin(r['args'][0]))
-        acc = [u for u, uc, w in unroutes if hirq.strip_casts(L.origin(u['args'][0])) == key and hirq.accompanies(L, r, u)]
-        own_abandon = False
-        # the Abandon request's own ID: origin is the request tuple's component 0 and the site is in the Abandon arm
-        if any(c[0] == 'arm' and hirq.pat_variant(c[1]['arms'][c[2]]['pat']) == 'LdapOp::Abandon' for c in hirq.conditions(L.context(r))):
-            o_req = L.origin_of_bind(req['bindings'][0][0])
-            own_id = hirq.project(hirq.project(o_req, ('variant', 'Some', 0)), ('tup', 0))
-            own_abandon = key == own_id
-        ctx.add('N6.release-implies-unrouted', '%s|%s' % (L.path, hirq.fmt_origin(key)), loc(r), bool(acc) or own_abandon,
-                'an ID is released while its routing entry is kept: the allocator can hand it to a second operation')
+        if id(r) not in seen and not (arm_node_role.get(id(r)) in interps and drv.never_taken(L, interps[arm_node_role[id(r)]], r)):
+            ctx.fail('N6.release-implies-unrouted', '%s|unreached' % L.path, loc(r), 'a release of an ID in the driver loop lies on no enumerated path of a select! arm: it was not analysed')
     ctx.floor('N6', 'ID releases in the driver loop', len(releases), 3)
